@@ -207,6 +207,21 @@ pub fn cmd_text_trace(a: &HashMap<String, String>) -> i32 {
             n += 1;
         }
     }
+    // texts whose code page bytes begin like a byte-order mark, with and without carets elsewhere in the text (a decoder that
+    // sniffs for a BOM - on any of its paths - re-reads them as UTF-16 / UTF-8)
+    for pre in ["\u{ff}\u{fe}", "\u{fe}\u{ff}", "\u{ef}\u{bb}\u{bf}"] {
+        for rest in ["", "ab", "abcd", "a|b", "\u{e9}\u{448}", "^1x", "x/y"] {
+            let s = format!("{pre}{rest}");
+            n += esc_events(&s, true, &mut w);
+            match guard(|| codepages::to_lossy_bytes(&s).to_vec()) {
+                Ok(b) => {
+                    let _ = writeln!(w, "{}", json!({"ev": "CpEnc", "in": cps(&s), "out": b}));
+                    n += 1;
+                },
+                Err(()) => {},
+            }
+        }
+    }
     println!("{}", json!({"events": n}));
     0
 }
